@@ -21,6 +21,8 @@ type c18Event struct {
 	enter  bool
 	node   js.INode
 	pruned bool // this Enter returned nil
+	recv   int  // identity of the visitor object that received the call
+	ret    int  // Enter: identity of the visitor object it returned
 }
 
 type c18Visitor struct {
@@ -30,6 +32,8 @@ type c18Visitor struct {
 	pruned map[nodeKey]bool
 	other  *c18Visitor
 	errs   []string
+	id     int // identity of this visitor object (0 = the one handed to Walk)
+	nextID int
 }
 
 func (v *c18Visitor) root() *c18Visitor {
@@ -41,7 +45,7 @@ func (v *c18Visitor) root() *c18Visitor {
 
 func (v *c18Visitor) Enter(n js.INode) js.IVisitor {
 	r := v.root()
-	r.events = append(r.events, c18Event{enter: true, node: n})
+	r.events = append(r.events, c18Event{enter: true, node: n, recv: v.id, ret: v.id})
 	switch r.policy {
 	case 1: // stop at a random subset
 		if r.rng.Intn(7) == 0 {
@@ -55,7 +59,9 @@ func (v *c18Visitor) Enter(n js.INode) js.IVisitor {
 		}
 	case 2: // hand back a different visitor object that records into the same log
 		if r.rng.Intn(3) == 0 {
-			return &c18Visitor{policy: 99, other: r}
+			r.nextID++
+			r.events[len(r.events)-1].ret = r.nextID
+			return &c18Visitor{policy: 99, other: r, id: r.nextID}
 		}
 	}
 	return v
@@ -63,7 +69,7 @@ func (v *c18Visitor) Enter(n js.INode) js.IVisitor {
 
 func (v *c18Visitor) Exit(n js.INode) {
 	r := v.root()
-	r.events = append(r.events, c18Event{enter: false, node: n})
+	r.events = append(r.events, c18Event{enter: false, node: n, recv: v.id})
 }
 
 // nodeKey identifies a node by address and type (an embedded first field shares its address with its parent).
@@ -154,11 +160,17 @@ func c18Check(t *fw.T, ast *js.AST, policy int) bool {
 	}
 	// balanced Enter/Exit with stack discipline; nothing entered below a pruned node
 	var stack []js.INode
+	var vstack []int // the visitor object each open Enter returned
 	entered := map[nodeKey]int{}
 	order := map[nodeKey]int{}
 	for i, ev := range v.events {
 		k := ptrKey(ev.node)
 		if ev.enter {
+			// the children of a node are walked with the visitor its Enter returned (the root with the one given to Walk)
+			if want := 0; len(vstack) == 0 && ev.recv != want || len(vstack) > 0 && ev.recv != vstack[len(vstack)-1] {
+				t.Failf("Enter(%T) was delivered to a visitor other than the one the enclosing node's Enter returned", ev.node)
+				return false
+			}
 			if isRequiredKind(ev.node) && !addrs[k.p] {
 				t.Failf("Enter(%T) with a node that is not part of the tree (reachable only outside it, e.g. through scope tables)", ev.node)
 				return false
@@ -175,6 +187,7 @@ func c18Check(t *fw.T, ast *js.AST, policy int) bool {
 			}
 			if !ev.pruned {
 				stack = append(stack, ev.node)
+				vstack = append(vstack, ev.ret)
 			} else {
 				// a pruned node: the next event must not be an Enter of one of its descendants; checked below through
 				// the reflection parents
@@ -184,7 +197,12 @@ func c18Check(t *fw.T, ast *js.AST, policy int) bool {
 				t.Failf("Exit(%T) does not match the innermost entered node", ev.node)
 				return false
 			}
+			if ev.recv != vstack[len(vstack)-1] {
+				t.Failf("Exit(%T) was delivered to a visitor other than the one Enter returned for that node", ev.node)
+				return false
+			}
 			stack = stack[:len(stack)-1]
+			vstack = vstack[:len(vstack)-1]
 		}
 	}
 	if len(stack) != 0 {
@@ -315,6 +333,35 @@ var c18Probes = []string{
 	"class A { x = 1; static y; [k] = z; #p }",
 	"switch (a) { case 1: b; case 2: default: c }",
 	"tag`a${b}c${d}`; o.f`x`; try {} catch ({e}) {}",
+	"({a = 1} = o); [{b = f(1)}] = arr; for ({c = 1} of l); ({p: {q = x+1}} = o)",
+	"[a, , b = 2, ...c.d] = e; ({k: [m = n], ...r} = s)",
+}
+
+// c18Future: programs in syntax newer than the pinned grammar. As long as js.Parse rejects them nothing is claimed; a
+// tree that is returned for one of them is checked like any other.
+var c18Future = []string{
+	"import d from \"./d.json\" with { type: \"json\" }", "export * from \"m\" with {}", "export {a} from \"m\" with { type: \"json\" }", "import \"m\" with { type: \"css\" }",
+	"@dec class A {}", "class A { @dec m() {} }", "class A { accessor x = 1 }", "using x = f();", "await using y = g();", "x = /[\\p{L}--[a-z]]/v", "import defer * as ns from \"m\"",
+	"import source s from \"m\"", "x = a |> f", "x = #{a: 1}", "x = do { 1 }", "function f(a, b = a?.[0] ?? c) {}", "x = y satisfies z", "enum E { A }", "x = <div/>",
+}
+
+func c18FutureProbe(t *fw.T) {
+	src := c18Future[t.Index%len(c18Future)]
+	t.Desc(map[string]any{"src": []byte(src)})
+	for _, op := range jsOptions {
+		ast, err := js.Parse(parse.NewInputString(src), op)
+		if err != nil {
+			t.Count("future.rejected", 1)
+			continue
+		}
+		for policy := 0; policy < 3; policy++ {
+			if !c18Check(t, ast, policy) {
+				return
+			}
+		}
+		t.Count("future.accepted", 1)
+	}
+	t.Nontrivial([]byte(src))
 }
 
 func c18Probe(t *fw.T) {
@@ -344,6 +391,7 @@ func init() {
 		Required: []string{"trees", "walk.events", "walk.positions", "walk.comment.nodes", "probes"},
 		Streams: []fw.Stream{
 			{Name: "probes", Quick: len(c18Probes), Thorough: len(c18Probes), Run: c18Probe},
+			{Name: "future-syntax", Quick: len(c18Future), Thorough: len(c18Future), Run: c18FutureProbe},
 			{Name: "walk", Quick: 200000, Thorough: 10000000, Run: c18Run},
 		},
 	})
